@@ -308,7 +308,7 @@ impl Monitor for C01 {
         "cwv-direct"
     }
     fn histories(&self, tier: Tier) -> u64 {
-        tier.pick(400, 256_000)
+        tier.pick(2_000, 256_000)
     }
     fn mandatory(&self) -> Vec<&'static str> {
         vec![
